@@ -1077,7 +1077,7 @@ impl<E: Elem> World<E> {
         let li = lens_idx(a[0]);
         let n = LENS[li];
         let p = a[1] as usize % (n + 1);
-        let kind = a[2] % 2;
+        let kind = a[2] % 4;
         if p == 0 {
             cx.probe("builder dropped at position 0");
         }
@@ -1085,29 +1085,49 @@ impl<E: Elem> World<E> {
             cx.probe("builder filled completely");
         }
         let r = with_len!(li; N => lib(|| unsafe {
-            if kind == 0 {
-                let mut b = ArrayBuilder::<E, N>::new();
-                {
-                    let (it, pos) = b.iter_position();
-                    for dst in it.take(p) {
-                        let e = { let _g = enter(Ctx::Work); ledger::tick(Seam::Closure); E::make() };
-                        dst.write(e);
-                        *pos += 1;
+            let mk = || { let _g = enter(Ctx::Work); ledger::tick(Seam::Closure); E::make() };
+            match kind {
+                0 => {
+                    let mut b = ArrayBuilder::<E, N>::new();
+                    {
+                        let (it, pos) = b.iter_position();
+                        for dst in it.take(p) {
+                            dst.write(mk());
+                            *pos += 1;
+                        }
                     }
+                    if p == N::USIZE { Some(Arr::from(b.assume_init())) } else { drop(b); None }
                 }
-                if p == N::USIZE { Some(Arr::from(b.assume_init())) } else { drop(b); None }
-            } else {
-                let mut storage = GenericArray::<E, N>::uninit();
-                let mut b = IntrusiveArrayBuilder::new(&mut storage);
-                {
-                    let (it, pos) = b.iter_position();
-                    for dst in it.take(p) {
-                        let e = { let _g = enter(Ctx::Work); ledger::tick(Seam::Closure); E::make() };
-                        dst.write(e);
-                        *pos += 1;
+                1 => {
+                    let mut storage = GenericArray::<E, N>::uninit();
+                    let mut b = IntrusiveArrayBuilder::new(&mut storage);
+                    {
+                        let (it, pos) = b.iter_position();
+                        for dst in it.take(p) {
+                            dst.write(mk());
+                            *pos += 1;
+                        }
                     }
+                    if p == N::USIZE { b.finish(); Some(Arr::from(IntrusiveArrayBuilder::array_assume_init(storage))) } else { drop(b); None }
                 }
-                if p == N::USIZE { b.finish(); Some(Arr::from(IntrusiveArrayBuilder::array_assume_init(storage))) } else { drop(b); None }
+                2 => {
+                    // `extend` from a source that yields p items
+                    let mut b = ArrayBuilder::<E, N>::new();
+                    b.extend((0..p).map(|_| mk()));
+                    if b.is_full() != (p == N::USIZE) {
+                        fail("unexpected-panic", format!("ArrayBuilder::<{}>::extend with {p} items reports is_full() = {}", N::USIZE, b.is_full()));
+                    }
+                    if p == N::USIZE { Some(Arr::from(b.assume_init())) } else { drop(b); None }
+                }
+                _ => {
+                    let mut storage = GenericArray::<E, N>::uninit();
+                    let mut b = IntrusiveArrayBuilder::new(&mut storage);
+                    b.extend((0..p).map(|_| mk()));
+                    if b.is_full() != (p == N::USIZE) {
+                        fail("unexpected-panic", format!("IntrusiveArrayBuilder::<{}>::extend with {p} items reports is_full() = {}", N::USIZE, b.is_full()));
+                    }
+                    if p == N::USIZE { b.finish(); Some(Arr::from(IntrusiveArrayBuilder::array_assume_init(storage))) } else { drop(b); None }
+                }
             }
         }));
         cx.cov(&[OpKind::BuilderRun as u64, n as u64, p as u64, kind as u64, r.is_err() as u64]);
